@@ -600,6 +600,16 @@ func (t *stampTransport) RoundTrip(req *http.Request) (*http.Response, error) {
 // default mux (Execute registers them and then fails at Listen because the
 // address is unlistenable) and serves them over pipes.
 func startSimServer(e *Env, s *Sched, baseDir string) *simServer {
+	return startSimServerMode(e, s, baseDir, false)
+}
+
+// startSimServerFree is startSimServer without scheduler control of the
+// handler goroutines (free-running race-detector workloads).
+func startSimServerFree(e *Env, s *Sched, baseDir string) *simServer {
+	return startSimServerMode(e, s, baseDir, true)
+}
+
+func startSimServerMode(e *Env, s *Sched, baseDir string, free bool) *simServer {
 	ss := &simServer{s: s, seq: map[string]int{}}
 	ss.oldMux = http.DefaultServeMux
 	http.DefaultServeMux = http.NewServeMux()
@@ -612,8 +622,10 @@ func startSimServer(e *Env, s *Sched, baseDir string) *simServer {
 	handler := http.HandlerFunc(func(w http.ResponseWriter, r *http.Request) {
 		name := r.Header.Get("X-Sim-Actor")
 		r.Header.Del("X-Sim-Actor")
-		done := s.Adopt("srv:" + name)
-		defer done()
+		if !free {
+			done := s.Adopt("srv:" + name)
+			defer done()
+		}
 		var fault *wireFault
 		if ss.fault != nil {
 			fault = ss.fault(r)
